@@ -46,19 +46,36 @@ theorem bounds_as_range (F : ℕ → ℝ) (n : ℕ) (hn : 1 ≤ n) :
   rw [List.range'_concat, List.map_append, List.range'_eq_map_range]
   simp [List.map_map, Function.comp, Nat.add_comm]
 
-/-- what `eqInt` computes when the classes are wider than the precision -/
-theorem eqInt_spec (par : Parent ℝ) (s : DD ℝ) (hn : 1 ≤ s.n) (hp : 0 ≤ s.prec)
-    (hw : s.prec < (s.dom.hi - s.dom.lo) / (s.n : ℝ)) :
+/-- what `eqInt` returns -/
+theorem eqInt_ok (par : Parent ℝ) (s s' : DD ℝ) (h : eqInt par s = .ok s') :
+    ∃ m, insertPairs s.prec s.dom.hi []
+        (((List.range s.n).map (fun i => s.dom.lo + (nat i + half) * ((s.dom.hi - s.dom.lo) / nat s.n))).zip
+          (eqIntMasses par s.n (par.P s.dom.hi - par.P s.dom.lo)
+            (s.dom.lo :: (List.range (s.n - 1)).map (fun i => s.dom.lo + (nat i + Scalar.one) * ((s.dom.hi - s.dom.lo) / nat s.n)) ++ [s.dom.hi]))) = some m ∧
+      s' = { s with dist := m, bounds := (List.range (s.n - 1)).map (fun i => s.dom.lo + (nat i + Scalar.one) * ((s.dom.hi - s.dom.lo) / nat s.n)) } := by
+  unfold eqInt at h
+  simp only at h
+  split at h
+  · rename_i m hm
+    injection h with h
+    exact ⟨m, hm, h.symm⟩
+  · simp at h
+
+/-- the bounds, class values and class masses of the equal-interval scheme, as functions of the
+class index -/
+theorem eqInt_lists (par : Parent ℝ) (s : DD ℝ) (hn : 1 ≤ s.n) :
     let w := (s.dom.hi - s.dom.lo) / (s.n : ℝ)
     let F : ℕ → ℝ := fun i => s.dom.lo + (i : ℝ) * w
     let cond := par.P s.dom.hi - par.P s.dom.lo
-    (eqInt par s).allBounds = (List.range' 0 (s.n + 1)).map F ∧
-    (eqInt par s).dist = (List.range' 0 s.n).map (fun i : ℕ => (s.dom.lo + ((i : ℝ) + 1 / 2) * w, (par.P (F (i + 1)) - par.P (F i)) / cond)) ∧
-    (eqInt par s).n = s.n ∧ (eqInt par s).dom = s.dom ∧ (eqInt par s).prec = s.prec ∧
-    (eqInt par s).median = s.median ∧ (eqInt par s).scheme = s.scheme := by
+    (s.dom.lo :: (List.range (s.n - 1)).map (fun i => s.dom.lo + (nat i + Scalar.one) * ((s.dom.hi - s.dom.lo) / nat s.n)) ++ [s.dom.hi]
+      = (List.range' 0 (s.n + 1)).map F) ∧
+    (((List.range s.n).map (fun i => s.dom.lo + (nat i + half) * ((s.dom.hi - s.dom.lo) / nat s.n))).zip
+      (eqIntMasses par s.n cond
+        (s.dom.lo :: (List.range (s.n - 1)).map (fun i => s.dom.lo + (nat i + Scalar.one) * ((s.dom.hi - s.dom.lo) / nat s.n)) ++ [s.dom.hi]))
+      = (List.range' 0 s.n).map (fun i : ℕ => (s.dom.lo + ((i : ℝ) + 1 / 2) * w,
+          if 0 < cond then (par.P (F (i + 1)) - par.P (F i)) / cond else 1 / (s.n : ℝ)))) := by
   intro w F cond
   have hn' : (0 : ℝ) < s.n := by exact_mod_cast hn
-  have hwpos : 0 < w := lt_of_le_of_lt hp hw
   have hFn : F s.n = s.dom.hi := by simp only [F, w]; field_simp; ring
   have hF0 : F 0 = s.dom.lo := by simp [F]
   have hb : (List.range (s.n - 1)).map (fun i => s.dom.lo + (nat i + Scalar.one) * ((s.dom.hi - s.dom.lo) / nat s.n))
@@ -68,22 +85,48 @@ theorem eqInt_spec (par : Parent ℝ) (s : DD ℝ) (hn : 1 ≤ s.n) (hp : 0 ≤ 
   have hall' : s.dom.lo :: (List.range (s.n - 1)).map (fun i => s.dom.lo + (nat i + Scalar.one) * ((s.dom.hi - s.dom.lo) / nat s.n)) ++ [s.dom.hi]
       = (List.range' 0 (s.n + 1)).map F := by
     rw [hb, ← bounds_as_range F s.n hn, hF0, hFn]
-  refine ⟨by simpa [DD.allBounds, eqInt] using hall', ?_, rfl, rfl, rfl, rfl, rfl⟩
-  simp only [eqInt]
-  rw [hall', pairs_map_range', List.range_eq_range', List.map_map, List.zip_map']
-  rw [foldl_assign_separated s.prec _ [] _ (by simp)]
-  · simp only [List.nil_append, Function.comp]
-    apply List.map_congr_left; intro i _
-    simp only [nat_eq, half_eq, F, w, cond]
-  · rw [List.pairwise_map]
-    have := List.pairwise_lt_range' (s := 0) (n := s.n) (step := 1) (by omega)
-    refine this.imp ?_
-    intro i j hij
-    simp only [nat_eq, half_eq]
-    have : (i : ℝ) + 1 ≤ (j : ℝ) := by exact_mod_cast hij
-    show s.dom.lo + ((i : ℝ) + 1 / 2) * ((s.dom.hi - s.dom.lo) / (s.n : ℝ)) < s.dom.lo + ((j : ℝ) + 1 / 2) * ((s.dom.hi - s.dom.lo) / (s.n : ℝ)) - s.prec
-    nlinarith
+  refine ⟨hall', ?_⟩
+  rw [hall']
+  unfold eqIntMasses
+  rw [pairs_map_range', List.range_eq_range', List.map_map, List.zip_map']
+  apply List.map_congr_left; intro i _
+  simp only [Function.comp, nat_eq, half_eq, ScalarReal.one_eq, ScalarReal.zero_eq, F, w, cond, Scalar.gtb, ScalarReal.ltb_iff]
 
+/-- what `eqInt` computes when the classes are wider than the precision and the domain has mass -/
+theorem eqInt_spec (par : Parent ℝ) (s : DD ℝ) (hn : 1 ≤ s.n) (hp : 0 ≤ s.prec)
+    (hw : s.prec < (s.dom.hi - s.dom.lo) / (s.n : ℝ)) :
+    let w := (s.dom.hi - s.dom.lo) / (s.n : ℝ)
+    let F : ℕ → ℝ := fun i => s.dom.lo + (i : ℝ) * w
+    let cond := par.P s.dom.hi - par.P s.dom.lo
+    ∃ s', eqInt par s = .ok s' ∧
+    s'.allBounds = (List.range' 0 (s.n + 1)).map F ∧
+    s'.dist = (List.range' 0 s.n).map (fun i : ℕ => (s.dom.lo + ((i : ℝ) + 1 / 2) * w,
+        if 0 < cond then (par.P (F (i + 1)) - par.P (F i)) / cond else 1 / (s.n : ℝ))) ∧
+    s'.n = s.n ∧ s'.dom = s.dom ∧ s'.prec = s.prec ∧ s'.median = s.median ∧ s'.scheme = s.scheme := by
+  intro w F cond
+  have hwpos : 0 < w := lt_of_le_of_lt hp hw
+  obtain ⟨hall', hzip⟩ := eqInt_lists par s hn
+  have hins : insertPairs s.prec s.dom.hi [] ((List.range' 0 s.n).map (fun i : ℕ => (s.dom.lo + ((i : ℝ) + 1 / 2) * w,
+      if 0 < cond then (par.P (F (i + 1)) - par.P (F i)) / cond else 1 / (s.n : ℝ)))) =
+      some ((List.range' 0 s.n).map (fun i : ℕ => (s.dom.lo + ((i : ℝ) + 1 / 2) * w,
+      if 0 < cond then (par.P (F (i + 1)) - par.P (F i)) / cond else 1 / (s.n : ℝ)))) := by
+    rw [insertPairs_separated s.prec s.dom.hi _ [] _ (by simp)]
+    · simp
+    · rw [List.pairwise_map]
+      have := List.pairwise_lt_range' (s := 0) (n := s.n) (step := 1) (by omega)
+      refine this.imp ?_
+      intro i j hij
+      have : (i : ℝ) + 1 ≤ (j : ℝ) := by exact_mod_cast hij
+      show s.dom.lo + ((i : ℝ) + 1 / 2) * ((s.dom.hi - s.dom.lo) / (s.n : ℝ)) < s.dom.lo + ((j : ℝ) + 1 / 2) * ((s.dom.hi - s.dom.lo) / (s.n : ℝ)) - s.prec
+      nlinarith
+  let dist : TMap ℝ := (List.range' 0 s.n).map (fun i : ℕ => (s.dom.lo + ((i : ℝ) + 1 / 2) * w,
+      if 0 < cond then (par.P (F (i + 1)) - par.P (F i)) / cond else 1 / (s.n : ℝ)))
+  let bnds : List ℝ := (List.range (s.n - 1)).map (fun i => s.dom.lo + (nat i + Scalar.one) * ((s.dom.hi - s.dom.lo) / nat s.n))
+  refine ⟨{ s with dist := dist, bounds := bnds }, ?_, ?_, rfl, rfl, rfl, rfl, rfl, rfl⟩
+  · unfold eqInt
+    simp only
+    rw [hzip, hins]
+  · exact hall'
 
 theorem telescope_range' (g : ℕ → ℝ) (n j : ℕ) :
     ((List.range' j n).map (fun i => g (i + 1) - g i)).sum = g (j + n) - g j := by
@@ -98,23 +141,28 @@ theorem sum_map_div (l : List ℝ) (c : ℝ) : (l.map (fun v => v / c)).sum = l.
   | nil => simp
   | cons a t ih => simp [ih]; ring
 
-/-- the clauses of a valid partition for the equal-interval scheme -/
+/-- the clauses of a valid partition for the equal-interval scheme, with the class masses -/
 theorem eqInt_valid (par : Parent ℝ) (s : DD ℝ) (hn : 1 ≤ s.n) (hp : 0 ≤ s.prec)
     (hw : s.prec < (s.dom.hi - s.dom.lo) / (s.n : ℝ))
     (hmono : ∀ x y, s.dom.lo ≤ x → x ≤ y → y ≤ s.dom.hi → par.P x ≤ par.P y)
     (hcond : par.P s.dom.lo < par.P s.dom.hi) :
-    nClassesOk (eqInt par s) = true ∧ probsNonneg (eqInt par s) = true ∧ probsSumOne 0 (eqInt par s) = true ∧
-    boundsMonoInDom (eqInt par s) = true ∧ valuesStrictMono (eqInt par s) = true ∧ valuesInClass (eqInt par s) = true ∧
-    (∀ pm ∈ (eqInt par s).probs.zip (pairs (eqInt par s).allBounds),
+    ∃ r, eqInt par s = .ok r ∧
+    nClassesOk r = true ∧ probsNonneg r = true ∧ probsSumOne 0 r = true ∧
+    boundsMonoInDom r = true ∧ valuesStrictMono r = true ∧ valuesInClass r = true ∧
+    (∀ pm ∈ r.probs.zip (pairs r.allBounds),
         pm.1 * (par.P s.dom.hi - par.P s.dom.lo) = par.P pm.2.2 - par.P pm.2.1) ∧
-    TMap.Sorted s.prec (eqInt par s).dist := by
+    TMap.Sorted s.prec r.dist := by
   have hn' : (0 : ℝ) < s.n := by exact_mod_cast hn
-  obtain ⟨hall, hdist, hnn, hdom, hprec, _, _⟩ := eqInt_spec par s hn hp hw
+  obtain ⟨r, hr, hall, hdist0, hnn, hdom, hprec, _, _⟩ := eqInt_spec par s hn hp hw
+  refine ⟨r, hr, ?_⟩
+  obtain ⟨m, _, hrm⟩ := eqInt_ok par s r hr
   set w := (s.dom.hi - s.dom.lo) / (s.n : ℝ) with hwdef
   set F : ℕ → ℝ := fun i => s.dom.lo + (i : ℝ) * w with hF
   set cond := par.P s.dom.hi - par.P s.dom.lo with hc
   have hwpos : 0 < w := lt_of_le_of_lt hp hw
   have hcpos : 0 < cond := by simp only [hc]; linarith
+  have hdist : r.dist = (List.range' 0 s.n).map (fun i : ℕ => (s.dom.lo + ((i : ℝ) + 1 / 2) * w, (par.P (F (i + 1)) - par.P (F i)) / cond)) := by
+    rw [hdist0]; apply List.map_congr_left; intro i _; simp [hcpos]
   have hFn : F s.n = s.dom.hi := by simp only [hF, hwdef]; field_simp; ring
   have hF0 : F 0 = s.dom.lo := by simp [hF]
   have hFmono : ∀ i j : ℕ, i ≤ j → F i ≤ F j := by
@@ -123,18 +171,18 @@ theorem eqInt_valid (par : Parent ℝ) (s : DD ℝ) (hn : 1 ≤ s.n) (hp : 0 ≤
     nlinarith
   have hFlo : ∀ i : ℕ, s.dom.lo ≤ F i := fun i => by rw [← hF0]; exact hFmono 0 i (Nat.zero_le _)
   have hFhi : ∀ i : ℕ, i ≤ s.n → F i ≤ s.dom.hi := fun i hi => by rw [← hFn]; exact hFmono i s.n hi
-  have hprobs : (eqInt par s).probs = (List.range' 0 s.n).map (fun i : ℕ => (par.P (F (i + 1)) - par.P (F i)) / cond) := by
+  have hprobs : r.probs = (List.range' 0 s.n).map (fun i : ℕ => (par.P (F (i + 1)) - par.P (F i)) / cond) := by
     unfold DD.probs TMap.vals; rw [hdist, List.map_map]; rfl
-  have hcats : (eqInt par s).cats = (List.range' 0 s.n).map (fun i : ℕ => s.dom.lo + ((i : ℝ) + 1 / 2) * w) := by
+  have hcats : r.cats = (List.range' 0 s.n).map (fun i : ℕ => s.dom.lo + ((i : ℝ) + 1 / 2) * w) := by
     unfold DD.cats TMap.keys; rw [hdist, List.map_map]; rfl
-  have hpairs : pairs (eqInt par s).allBounds = (List.range' 0 s.n).map (fun i => (F i, F (i + 1))) := by
+  have hpairs : pairs r.allBounds = (List.range' 0 s.n).map (fun i => (F i, F (i + 1))) := by
     rw [hall, pairs_map_range']
   refine ⟨?_, ?_, ?_, ?_, ?_, ?_, ?_, ?_⟩
   · -- n classes
     simp only [nClassesOk, Bool.and_eq_true, beq_iff_eq]
     constructor
     · rw [hdist, hnn]; simp
-    · rw [hnn]; simp [eqInt]; omega
+    · rw [hnn, hrm]; simp; omega
   · -- non-negative
     simp only [probsNonneg, List.all_eq_true, ScalarReal.leb_iff, ScalarReal.zero_eq]
     intro p hpm
@@ -190,5 +238,81 @@ theorem eqInt_valid (par : Parent ℝ) (s : DD ℝ) (hn : 1 ≤ s.n) (hp : 0 ≤
     have : (i : ℝ) + 1 ≤ (j : ℝ) := by exact_mod_cast hij
     show s.dom.lo + ((i : ℝ) + 1 / 2) * w < s.dom.lo + ((j : ℝ) + 1 / 2) * w - s.prec
     nlinarith
+
+/-- the clauses that need neither wide classes nor mass on the domain (the repaired scheme keeps
+the class values distinct and falls back to equal probabilities): after `discretizeEqualIntervals`
+there are `n` classes in comparator order, with non-negative probabilities summing to one, and
+non-decreasing bounds inside the domain -/
+theorem eqInt_partition (par : Parent ℝ) (s r : DD ℝ) (hn : 1 ≤ s.n) (hp : 0 ≤ s.prec) (hl : s.dom.lo ≤ s.dom.hi)
+    (hmono : ∀ x y, s.dom.lo ≤ x → x ≤ y → y ≤ s.dom.hi → par.P x ≤ par.P y)
+    (h : eqInt par s = .ok r) :
+    nClassesOk r = true ∧ probsNonneg r = true ∧ probsSumOne 0 r = true ∧
+    boundsMonoInDom r = true ∧ valuesStrictMono r = true ∧ TMap.Sorted s.prec r.dist ∧
+    r.n = s.n ∧ r.dom = s.dom ∧ r.prec = s.prec ∧ r.median = s.median ∧ r.scheme = s.scheme := by
+  have hn' : (0 : ℝ) < s.n := by exact_mod_cast hn
+  obtain ⟨m, hm, hrm⟩ := eqInt_ok par s r h
+  obtain ⟨hall', hzip⟩ := eqInt_lists par s hn
+  rw [hzip] at hm
+  set w := (s.dom.hi - s.dom.lo) / (s.n : ℝ) with hwdef
+  set F : ℕ → ℝ := fun i => s.dom.lo + (i : ℝ) * w with hF
+  set cond := par.P s.dom.hi - par.P s.dom.lo with hc
+  have hw0 : 0 ≤ w := div_nonneg (by linarith) hn'.le
+  have hFn : F s.n = s.dom.hi := by simp only [hF, hwdef]; field_simp; ring
+  have hF0 : F 0 = s.dom.lo := by simp [hF]
+  have hFmono : ∀ i j : ℕ, i ≤ j → F i ≤ F j := by
+    intro i j hij; simp only [hF]
+    have : (i : ℝ) ≤ j := by exact_mod_cast hij
+    nlinarith
+  have hFlo : ∀ i : ℕ, s.dom.lo ≤ F i := fun i => by rw [← hF0]; exact hFmono 0 i (Nat.zero_le _)
+  have hFhi : ∀ i : ℕ, i ≤ s.n → F i ≤ s.dom.hi := fun i hi => by rw [← hFn]; exact hFmono i s.n hi
+  obtain ⟨hsorted, hlen, hperm⟩ := insertPairs_spec s.prec s.dom.hi hp _ [] m (by simp [TMap.Sorted]) hm
+  simp only [List.length_nil, Nat.zero_add, List.length_map, List.length_range', TMap.vals, List.map_nil, List.nil_append,
+    List.map_map] at hlen hperm
+  have hdist : r.dist = m := by rw [hrm]
+  have hprobs : r.probs.Perm ((List.range' 0 s.n).map (fun i : ℕ =>
+      if 0 < cond then (par.P (F (i + 1)) - par.P (F i)) / cond else 1 / (s.n : ℝ))) := by
+    unfold DD.probs TMap.vals
+    rw [hdist]
+    exact hperm
+  have hballs : r.allBounds = (List.range' 0 (s.n + 1)).map F := by
+    rw [hrm]; simpa [DD.allBounds] using hall'
+  refine ⟨?_, ?_, ?_, ?_, ?_, ?_, by rw [hrm], by rw [hrm], by rw [hrm], by rw [hrm], by rw [hrm]⟩
+  · simp only [nClassesOk, Bool.and_eq_true, beq_iff_eq]
+    constructor
+    · rw [hdist, hlen, hrm]
+    · rw [hrm]; simp; omega
+  · simp only [probsNonneg, List.all_eq_true, ScalarReal.leb_iff, ScalarReal.zero_eq]
+    intro p hpm
+    have := hprobs.mem_iff.1 hpm
+    obtain ⟨i, hi, rfl⟩ := List.mem_map.1 this
+    have hi' : i < s.n := by simpa using hi
+    split
+    · rename_i hcpos
+      apply div_nonneg _ hcpos.le
+      have := hmono (F i) (F (i + 1)) (hFlo i) (hFmono i (i + 1) (by omega)) (hFhi (i + 1) (by omega))
+      linarith
+    · positivity
+  · simp only [probsSumOne, ScalarReal.leb_iff, sumL_eq, ScalarReal.abs_eq, ScalarReal.one_eq]
+    rw [hprobs.sum_eq]
+    by_cases hcpos : 0 < cond
+    · simp only [hcpos, if_true]
+      have e : (List.range' 0 s.n).map (fun i : ℕ => (par.P (F (i + 1)) - par.P (F i)) / cond) =
+          ((List.range' 0 s.n).map (fun i : ℕ => par.P (F (i + 1)) - par.P (F i))).map (fun v => v / cond) := by
+        rw [List.map_map]; rfl
+      rw [e, sum_map_div, telescope_range' (fun i => par.P (F i)) s.n 0]
+      simp only [Nat.zero_add, hFn, hF0]
+      rw [show (par.P s.dom.hi - par.P s.dom.lo) / cond = 1 from div_self hcpos.ne']
+      simp
+    · simp only [hcpos, if_false]
+      rw [List.map_const', List.sum_replicate, List.length_range', nsmul_eq_mul]
+      rw [show (s.n : ℝ) * (1 / (s.n : ℝ)) = 1 by field_simp]; simp
+  · simp only [boundsMonoInDom, nondecr_iff]
+    rw [hballs]
+    apply List.Pairwise.isChain
+    rw [List.pairwise_map]
+    exact (List.pairwise_lt_range' (s := 0) (n := s.n + 1) (step := 1) (by omega)).imp (fun {i j} hij => hFmono i j hij.le)
+  · rw [valuesStrictMono, DD.cats, hdist]
+    exact TMap.keys_strict_of_sorted s.prec hp m hsorted
+  · rw [hdist]; exact hsorted
 
 end Bpp.Discretize
